@@ -332,6 +332,75 @@ def one_process_histories(chk, rng, families: dict, modes=("sha", "seed0")) -> l
     return fails
 
 
+def ordered_pairs(n: int) -> list[tuple[int, int]]:
+    return [(i, j) for i in range(n) for j in range(n) if i != j] if n <= 3 else \
+        [(i, (i + 1) % n) for i in range(n)] + [((i + 1) % n, i) for i in range(n)]
+
+
+def pair_histories(chk, rng, families: dict, modes=("sha", "seed0"), process_seeds=(None, "0", "424242"),
+                   label="expressions differing only in a function-valued attribute") -> list[dict]:
+    """For every ordered pair (A, B) of different expressions of a family: A then B then A through one
+    fresh directory (i) in ONE process, (ii) A in a first process, B then A in a LATER process that
+    builds its own expressions — for every hash-seed mode.  The key comparison `cached_key == expr`
+    is the only thing that keeps B from being served A's record (they print identically, and may hash
+    identically): this is the property evaluated where that comparison decides."""
+    from ampform.sympy import perform_cached_doit as fn
+
+    fails: list[dict] = []
+    stats = {"families": len(families), "ordered_pairs": 0, "same_process_calls": 0, "later_process_calls": 0,
+             "processes": 0}
+    root = Path(tempfile.mkdtemp(prefix="c16pair_"))
+    try:
+        script1, script2 = [], []
+        for fam, exprs in families.items():
+            doits = [e.doit() for e in exprs]
+            for (i, j) in ordered_pairs(len(exprs)):
+                stats["ordered_pairs"] += 1
+                script1.append([fam, i, f"{fam}/{i}-{j}"])
+                script2 += [[fam, j, f"{fam}/{i}-{j}"], [fam, i, f"{fam}/{i}-{j}"]]
+                for mode in modes:
+                    d = Path(tempfile.mkdtemp(prefix="d", dir=root))
+                    with hash_mode(mode):
+                        for step, k in enumerate((i, j, i, j)):
+                            res = _check_call(fn, exprs[k], doits[k], d)
+                            stats["same_process_calls"] += 1
+                            chk.count(("pair-same-process", fam, mode, i, j, step))
+                            if res and res.get("observed") != "skipped":
+                                if not any(f["family"] == fam and f["process"] == "same" for f in fails):
+                                    fails.append({"what": f"{label}: one directory, one process", "process": "same",
+                                                  "family": fam, "mode": mode, "order": [i, j, i, j], "failed_step": step,
+                                                  "expr_str": str(exprs[k])[:160], **res})
+                                break
+                    shutil.rmtree(d, ignore_errors=True)
+        for script, what in ((script1, "first"), (script2, "later")):
+            ps = [(_spawn({"dir": str(root / f"proc-{s}"), "script": script}, s), s) for s in process_seeds]
+            stats["processes"] += len(ps)
+            for p, s in ps:
+                try:
+                    out, err = p.communicate(timeout=300)
+                except subprocess.TimeoutExpired as e:
+                    p.kill()
+                    raise common.InfraError("C16 pair-history worker timed out") from e
+                if p.returncode != 0 or '"done"' not in out:
+                    raise common.InfraError(f"C16 pair-history worker failed: rc={p.returncode} {err[-800:]}")
+                for line in out.splitlines():
+                    try:
+                        j = json.loads(line)
+                    except json.JSONDecodeError:
+                        continue
+                    if "done" in j:
+                        stats["later_process_calls"] += j["done"]
+                        chk.count(("pair-process", what, s), j["done"])
+                    if "fail" in j and not any(f.get("family") == j["family"] and f["process"] == what for f in fails):
+                        fails.append({"what": f"{label}: one directory, {what} process: {j['fail']}", "process": what,
+                                      "PYTHONHASHSEED": s or "unset",
+                                      "history": "first process: A; later process: B, A (directory = family/A-B)", **j})
+    finally:
+        shutil.rmtree(root, ignore_errors=True)
+    chk.info("pair_history_stats", stats)
+    return fails
+
+
 def default_directory(chk) -> tuple[list[dict], dict]:
     """`cache_directory=None`: resolution through get_system_cache_directory with XDG_CACHE_HOME / HOME
     pointing into scratch space (the real home is never touched: if the resolved path is not inside the
